@@ -306,6 +306,11 @@ func exec(sw string, o Op) (out []any, err error) {
 		if sr.ErrorCode != nil || len(sr.GetKeyStatuses()) != 1 {
 			return []any{"NOT_FOUND"}, nil
 		}
+		if !observeExp {
+			// concurrent modes: DeleteTreasure checks existence and deletes in two steps, two racing deletes of one
+			// key both answer DELETED; that is not a claim's business, the status is not bound ("?")
+			return []any{"?"}, nil
+		}
 		return []any{sr.GetKeyStatuses()[0].GetStatus().String()}, nil
 	}
 	return nil, fmt.Errorf("unknown op kind %q", o.Kind)
@@ -625,11 +630,12 @@ const (
 	gEnter    // beacon.select.enter: predicate built, selection lock not yet taken
 	gExit     // beacon.select.exit: end of the walk, selection lock still held
 	gSelected // patchexpired.selected: selection done and unlocked, nothing patched yet
+	gFetch    // patchfields.fetched: PatchFields holds the treasure object, has not taken its guard yet
 	gGap      // beacon.add.enter, first Add of an interferer's save: the record was taken out of the expiration beacons and is not back yet
 )
 
-var gateOf = map[string]int32{"beacon.select.enter": gEnter, "beacon.select.exit": gExit, "patchexpired.selected": gSelected, "beacon.add.enter": gGap}
-var gateName = []string{"none", "enter", "exit", "selected", "gap"}
+var gateOf = map[string]int32{"beacon.select.enter": gEnter, "beacon.select.exit": gExit, "patchexpired.selected": gSelected, "beacon.add.enter": gGap, "patchfields.fetched": gFetch}
+var gateName = []string{"none", "enter", "exit", "selected", "fetch", "gap"}
 
 type mproc struct {
 	name    string
@@ -806,7 +812,7 @@ func replayMode(in, out, resFile string) error {
 			} else {
 				got = mp.advance()
 			}
-			if got == "gap" && st.Want != "gap" { // the schedule does not stop in the gap
+			for (got == "gap" || got == "fetch") && st.Want != got { // the schedule does not stop at this gate
 				got = mp.advance()
 			}
 			res.Observed = append(res.Observed, st.P+":"+got)
@@ -869,10 +875,15 @@ func (g *gen) stressClaim() Op {
 	for {
 		o := g.claim()
 		if o.Kind == "sm" && o.Idx == "key" {
-			// the pin record (grp "pin") keeps the swamp alive: key-index claims must not be able to take it
-			if o.F.Mode == "none" || o.F.UseG == 0 || (o.F.Mode == "or" && o.F.UseS == 1) {
-				continue
+			// The pin record (grp "pin", st "pin", no expiry) keeps the swamp alive (an empty swamp destroys itself,
+			// which is another property's business). A key-index claim must not be able to take it, not even when the
+			// indexable leg is dropped for lack of candidates (D_C11_EmptyCandidatesDropIndexedLeg): the leg always
+			// has the pin as a candidate, and the residual leg always rejects the pin.
+			if o.F.UseG == 0 || len(o.F.G) == 0 {
+				o.F.G = []string{groups[g.rng.Intn(2)]}
 			}
+			o.F.Mode, o.F.UseG, o.F.UseS, o.F.S = "and", 1, 1, "pin"
+			o.F.G = append(append([]string{}, o.F.G...), "pin")
 		}
 		if o.N == 0 && g.rng.Intn(2) == 0 {
 			o.N = 1 + g.rng.Intn(2)
